@@ -57,9 +57,10 @@ fn de_plus1<'de, D: Deserializer<'de>>(d: D) -> Result<u32, D::Error> {
 fn de_tag<'de, D: Deserializer<'de>>(d: D) -> Result<String, D::Error> {
     String::deserialize(d).map(|s| format!("w:{}", s))
 }
-/// Some(value + 1)
+/// Some(value + 1); the sentinel u32::MAX maps to None (an `Option` field whose function can answer None:
+/// the "seen" state of the field must not be confused with its value)
 fn de_some_plus1<'de, D: Deserializer<'de>>(d: D) -> Result<Option<u32>, D::Error> {
-    u32::deserialize(d).map(|x| Some(x.wrapping_add(1)))
+    u32::deserialize(d).map(|x| x.checked_add(1))
 }
 
 // ---------------------------------------------------------------------------- a SmallVec-like container
